@@ -190,4 +190,261 @@ theorem any_panic_value_is_error (sig : Sig) (pv : PanicValue) :
 /-- With `r.(error).Error()` called by the deferred function itself, a typed nil error escapes. -/
 example : afterHandler shape .errorMethod .typedNilError = .escaped := by decide
 
+/-! ## "A descriptive error": the bridge's own errors carry position and counts
+
+`Run`'s three explicit errors are `fmt.Errorf` texts built from DATA: "Too many parameters - got %v
+expected %v" (`len(args)`, `NumIn()`), "Parameter %v should be of type %v but is of type %v" (`i+1`, the
+parameter type, the type of the converted argument), "Parameter %v should be of type %v but the number
+%v is out of its range". The model the driver runs keeps only the class (`BridgeErr`). `buildArgsD`
+below is the same loop with the data kept; `buildArgsD_erase` ties it to `buildArgs`, and the theorems
+say that the data is RIGHT: the reported position is the first offending argument, the reported types
+and numbers are that argument's, the reported counts are the call's. (The texts themselves are never
+compared by the check — this gives the clause "a descriptive error" a formal reading in the model.) -/
+
+/-- the data of the three explicit errors of `Run` -/
+inductive DErr where
+  | tooMany (got expected : Nat)
+  | wrongType (pos : Nat) (expected : Ty) (given : Option Ty)      -- `pos` counts from 1, as the text does
+  | outOfRange (pos : Nat) (expected : Ty) (x : Num)
+  deriving DecidableEq, Repr
+
+inductive BuildD where
+  | ok (fargs : List Val)
+  | error (e : DErr)
+  | panic (pos : Nat)            -- `givenType.Kind()` on NULL for an interface parameter, at this position
+  deriving DecidableEq, Repr
+
+def DErr.erase : DErr → BridgeErr
+  | .tooMany _ _ => .tooMany
+  | .wrongType _ _ _ => .wrongType
+  | .outOfRange _ _ _ => .wrongType
+
+def BuildD.erase : BuildD → Build
+  | .ok f => .ok f
+  | .error e => .error e.erase
+  | .panic _ => .panic
+
+/-- the argument after `convertNumber` (what `reflect.TypeOf(arg)` in the error text is taken of) -/
+def convertedArg (oob : IntKind → Num → Int) (p : Ty) : Val → Val
+  | .f64 x => convertNumber oob x p
+  | a => a
+
+/-- the argument loop of `Run` with the data of its errors: `got = len(args)`, `numIn = NumIn()`,
+    `i` = the index of the first argument of this call of the function -/
+def buildArgsD (oob : IntKind → Num → Int) (got numIn : Nat) : Nat → List Ty → List Val → BuildD
+  | _, _, [] => .ok []
+  | _, [], _ :: _ => .error (.tooMany got numIn)
+  | i, p :: ps, a :: as =>
+    if outOfRange p a then
+      .error (match a with | .f64 x => .outOfRange (i + 1) p x | _ => .wrongType (i + 1) p a.ty)
+    else
+      match checkArgCore oob p a with
+      | .accept v =>
+        match buildArgsD oob got numIn (i + 1) ps as with
+        | .ok vs => .ok (v :: vs)
+        | r => r
+      | .error => .error (.wrongType (i + 1) p (convertedArg oob p a).ty)
+      | .panic => .panic (i + 1)
+
+/-- **Tie to the model the driver runs**: forgetting the data gives exactly `buildArgs`. -/
+theorem buildArgsD_erase (oob : IntKind → Num → Int) (got numIn : Nat) :
+    ∀ (ps : List Ty) (i : Nat) (as : List Val),
+      (buildArgsD oob got numIn i ps as).erase = buildArgs true oob ps as := by
+  intro ps
+  induction ps with
+  | nil =>
+    intro i as
+    cases as <;> simp [buildArgsD, buildArgs, BuildD.erase, DErr.erase]
+  | cons p ps ih =>
+    intro i as
+    cases as with
+    | nil => simp [buildArgsD, buildArgs, BuildD.erase]
+    | cons a as =>
+      simp only [buildArgsD, buildArgs, checkArg]
+      by_cases ho : outOfRange p a = true
+      · simp only [ho, if_true]
+        cases a <;> simp [BuildD.erase, DErr.erase]
+      · simp only [ho]
+        cases hc : checkArgCore oob p a with
+        | accept v =>
+          have hi := ih (i + 1) as
+          cases hd : buildArgsD oob got numIn (i + 1) ps as with
+          | ok f => rw [hd] at hi; simp only [BuildD.erase] at hi; simp [← hi, BuildD.erase]
+          | error e => rw [hd] at hi; simp only [BuildD.erase] at hi; simp [← hi, BuildD.erase]
+          | panic q => rw [hd] at hi; simp only [BuildD.erase] at hi; simp [← hi, BuildD.erase]
+        | error => simp [BuildD.erase, DErr.erase]
+        | panic => simp [BuildD.erase]
+
+/-- what the data of an error must be to be RIGHT for the call `params`, `args` (positions from `i`) -/
+def DErr.RightFor (oob : IntKind → Num → Int) (got numIn i : Nat) (ps : List Ty) (as : List Val) : DErr → Prop
+  | .tooMany g n =>
+    -- the counts are the call's, there are more arguments than parameters, and every parameter got
+    -- an acceptable argument (the surplus is the only thing wrong)
+    g = got ∧ n = numIn ∧ ps.length < as.length ∧ ∃ f, buildArgs true oob ps (as.take ps.length) = .ok f
+  | .wrongType pos exp giv =>
+    -- `pos` is the FIRST offending argument: it has the reported parameter type, its (converted) type is
+    -- the reported one, it is rejected, and everything before it was accepted
+    ∃ j a, pos = i + j + 1 ∧ ps[j]? = some exp ∧ as[j]? = some a ∧ giv = (convertedArg oob exp a).ty ∧
+      Ecal.Bridge.outOfRange exp a = false ∧ checkArgCore oob exp a = .error ∧
+      ∃ f, buildArgs true oob (ps.take j) (as.take j) = .ok f
+  | .outOfRange pos exp x =>
+    ∃ j, pos = i + j + 1 ∧ ps[j]? = some exp ∧ as[j]? = some (.f64 x) ∧ numberFits x exp = false ∧
+      ∃ f, buildArgs true oob (ps.take j) (as.take j) = .ok f
+
+theorem buildArgs_cons_ok {oob : IntKind → Num → Int} {p : Ty} {ps : List Ty} {a v : Val} {as f : List Val}
+    (ho : outOfRange p a = false) (hc : checkArgCore oob p a = .accept v)
+    (hf : buildArgs true oob ps as = .ok f) : buildArgs true oob (p :: ps) (a :: as) = .ok (v :: f) := by
+  simp [buildArgs, checkArg, ho, hc, hf]
+
+/-- **The data of every explicit error of the argument loop is right** — for every parameter list,
+    argument vector and starting index: the counts of "too many" are the call's and the surplus is the
+    only thing wrong; the position of a type / range error is the FIRST offending argument, the reported
+    parameter type, argument type and number are that position's, and everything before it was accepted. -/
+theorem buildArgsD_error_right (oob : IntKind → Num → Int) (got numIn : Nat) :
+    ∀ (ps : List Ty) (i : Nat) (as : List Val) (e : DErr),
+      buildArgsD oob got numIn i ps as = .error e → e.RightFor oob got numIn i ps as := by
+  intro ps
+  induction ps with
+  | nil =>
+    intro i as e h
+    cases as with
+    | nil => simp [buildArgsD] at h
+    | cons a as =>
+      simp [buildArgsD] at h; subst h
+      exact ⟨rfl, rfl, by simp, ⟨[], by simp [buildArgs]⟩⟩
+  | cons p ps ih =>
+    intro i as e h
+    cases as with
+    | nil => simp [buildArgsD] at h
+    | cons a as =>
+      simp only [buildArgsD] at h
+      by_cases ho : outOfRange p a = true
+      · simp only [ho, if_true] at h
+        cases a with
+        | f64 x =>
+          simp at h; subst h
+          refine ⟨0, by omega, by simp, by simp, ?_, ⟨[], by simp [buildArgs]⟩⟩
+          simpa [outOfRange] using ho
+        | _ => simp [outOfRange] at ho
+      · have ho' : outOfRange p a = false := by simpa using ho
+        simp only [ho] at h
+        cases hc : checkArgCore oob p a with
+        | panic => simp [hc] at h
+        | error =>
+          simp [hc] at h; subst h
+          exact ⟨0, a, by omega, by simp, by simp, rfl, ho', hc, ⟨[], by simp [buildArgs]⟩⟩
+        | accept v =>
+          simp only [hc] at h
+          cases hd : buildArgsD oob got numIn (i + 1) ps as with
+          | ok f => simp [hd] at h
+          | panic q => simp [hd] at h
+          | error e' =>
+            simp [hd] at h; subst h
+            have hr := ih (i + 1) as e' hd
+            cases e' with
+            | tooMany g n =>
+              obtain ⟨h1, h2, h3, f, hf⟩ := hr
+              refine ⟨h1, h2, by simp; omega, ⟨v :: f, ?_⟩⟩
+              simpa using buildArgs_cons_ok ho' hc hf
+            | wrongType pos exp giv =>
+              obtain ⟨j, b, h1, h2, h3, h4, h5, h6, f, hf⟩ := hr
+              refine ⟨j + 1, b, by omega, by simpa using h2, by simpa using h3, h4, h5, h6, ⟨v :: f, ?_⟩⟩
+              simpa using buildArgs_cons_ok ho' hc hf
+            | outOfRange pos exp x =>
+              obtain ⟨j, h1, h2, h3, h4, f, hf⟩ := hr
+              refine ⟨j + 1, by omega, by simpa using h2, by simpa using h3, h4, ⟨v :: f, ?_⟩⟩
+              simpa using buildArgs_cons_ok ho' hc hf
+
+/-- the argument loop of a call with the data of its errors -/
+def describe (oob : IntKind → Num → Int) (sig : Sig) (args : List Val) : BuildD :=
+  buildArgsD oob args.length sig.params.length 0 sig.params args
+
+theorem convertResults_err_not_bridge : ∀ (vals : List Val) (outs : List Ty) (b : BridgeErr),
+    (convertResults vals outs).2 ≠ some (.bridge b) := by
+  intro vals
+  induction vals with
+  | nil => intro outs b; simp [convertResults]
+  | cons v vs ih =>
+    intro outs b
+    cases vs with
+    | nil =>
+      simp only [convertResults]
+      split
+      · split <;> simp
+      · simp
+    | cons v' vs' =>
+      simp only [convertResults]
+      exact ih outs.tail b
+
+/-- **Every error `Run` makes itself is descriptive, with the right data** — in both directions, for
+    every signature, body and argument vector. (→) If the argument loop ends in an explicit error `e`,
+    `Run` returns `(nil, e)` (as class `e.erase` in the model the driver runs), the function is not run,
+    and `e`'s data is right for the call (`DErr.RightFor`: the call's counts; the FIRST offending position,
+    its parameter type, its argument's type / number). (←) Every error of class "bridge" that `Run` returns
+    is such an `e`. The other errors of `Run` are the function's own error value and "Error: <panic
+    value>" (recovered panics, `any_panic_value_is_error`). -/
+theorem run_error_is_descriptive (oob : IntKind → Num → Int) (sig : Sig) (args : List Val)
+    (body : List Val → BodyOut) :
+    (∀ e, describe oob sig args = .error e →
+      run shape oob (.fn sig body) args = .done (.one .nil) (some (.bridge e.erase)) ∧
+      e.RightFor oob args.length sig.params.length 0 sig.params args) ∧
+    (∀ r b, run shape oob (.fn sig body) args = .done r (some (.bridge b)) →
+      ∃ e, describe oob sig args = .error e ∧ e.erase = b ∧
+        e.RightFor oob args.length sig.params.length 0 sig.params args) := by
+  have her := buildArgsD_erase oob args.length sig.params.length sig.params 0 args
+  constructor
+  · intro e he
+    have hb : buildArgs true oob sig.params args = .error e.erase := by
+      rw [← her]; unfold describe at he; rw [he]; rfl
+    exact ⟨by simp [run, runRaw, shape_arity_checked, hb],
+      buildArgsD_error_right oob _ _ sig.params 0 args e he⟩
+  · intro r b hrun
+    cases hd : describe oob sig args with
+    | error e =>
+      have hb : buildArgs true oob sig.params args = .error e.erase := by
+        rw [← her]; unfold describe at hd; rw [hd]; rfl
+      have : run shape oob (.fn sig body) args = .done (.one .nil) (some (.bridge e.erase)) := by
+        simp [run, runRaw, shape_arity_checked, hb]
+      rw [this] at hrun
+      simp at hrun
+      exact ⟨e, rfl, hrun.2, buildArgsD_error_right oob _ _ sig.params 0 args e hd⟩
+    | ok f =>
+      exfalso
+      have hb : buildArgs true oob sig.params args = .ok f := by
+        rw [← her]; unfold describe at hd; rw [hd]; rfl
+      simp only [run, runRaw, shape_arity_checked, hb] at hrun
+      split at hrun
+      · rename_i r' e' heq
+        split at heq
+        · split at heq
+          · simp at heq
+          · simp at heq
+          · simp at heq
+            cases hrun
+            exact convertResults_err_not_bridge _ _ b (by rw [← heq.2])
+        · simp at heq
+      · split at hrun <;> simp at hrun
+      · split at hrun
+        · split at hrun <;> simp at hrun
+        · simp at hrun
+    | panic q =>
+      exfalso
+      have hb : buildArgs true oob sig.params args = .panic := by
+        rw [← her]; unfold describe at hd; rw [hd]; rfl
+      simp [run, runRaw, shape_arity_checked, hb, shape_recovers] at hrun
+
+/-- `f(a float64)` called with (1, "x"): "Too many parameters - got 2 expected 1". -/
+example : describe (fun _ _ => 0) ⟨[.f64], false, []⟩ [.f64 (.fin 1 0), .str "s:78"] = .error (.tooMany 2 1) := by
+  decide
+
+/-- `f(a float64, b string, c bool)` called with (1, 2, NULL): "Parameter 2 should be of type string but is
+    of type float64" — the FIRST offending argument, although the third is wrong too. -/
+example : describe (fun _ _ => 0) ⟨[.f64, .str, .bool], false, []⟩ [.f64 (.fin 1 0), .f64 (.fin 2 0), .nil]
+    = .error (.wrongType 2 .str (some .f64)) := by decide
+
+/-- `f(a int8, b uint8)` called with (5, 256): "Parameter 2 should be of type uint8 but the number 256 is out
+    of its range". -/
+example : describe (fun _ _ => 0) ⟨[.int .int8, .int .uint8], false, []⟩ [.f64 (.fin 5 0), .f64 (.fin 256 0)]
+    = .error (.outOfRange 2 (.int .uint8) (.fin 256 0)) := by decide
+
 end Ecal.Props.C19
